@@ -60,6 +60,7 @@ type SpecFunc struct {
 }
 
 type FuncContract struct {
+	Opaque []string // pure functions used as uninterpreted symbols in this unit (their contract axioms are not emitted)
 	DeclPkg  string // package of the contract file that declares it
 	Pkg      string // import path
 	Name     string // "F" or "Recv.F"
@@ -457,6 +458,15 @@ func (cs *ContractSet) parseFile(root, file string) error {
 			pkg = strings.TrimSpace(rest)
 			cs.Rendered[pkg] = true
 			cur = nil
+		case "opaque":
+			if cur == nil {
+				return bad(c, "opaque outside a function contract")
+			}
+			for _, f := range strings.Split(rest, ",") {
+				if f = strings.TrimSpace(f); f != "" {
+					cur.Opaque = append(cur.Opaque, f)
+				}
+			}
 		case "pkginvariant":
 			// pkginvariant name: expr  - a property of the package's variables that every function of the package may
 			// assume on entry and every function under contract whose frame contains such a variable re-establishes
